@@ -107,6 +107,8 @@ fn is_go_predeclared(s: &str) -> bool {
             | "int"
             | "iota"
             | "len"
+            // the name the entry function `main` is emitted under
+            | "main0"
             | "make"
             | "max"
             | "min"
